@@ -227,6 +227,22 @@ func runC02(w *core.WorkerCtx, idx int) *core.CaseResult {
 			spec2.Jobs[i].Relabel = append(spec2.Jobs[i].Relabel, cfggen.Relabel{Target: "phase", Replacement: "two"})
 		}
 		spec2.Jobs[0].MetricsPath = "/reloaded/path"
+		for i := range spec2.Jobs {
+			// a changed value of a configured param: it reaches the URL only through the job section of the generated file
+			var ks []string
+			for k := range spec2.Jobs[i].Params {
+				ks = append(ks, k)
+			}
+			sort.Strings(ks)
+			if len(ks) > 0 && len(spec2.Jobs[i].Params[ks[0]]) > 0 {
+				p2 := map[string][]string{}
+				for k, v := range spec2.Jobs[i].Params {
+					p2[k] = append([]string{}, v...)
+				}
+				p2[ks[0]][0] = "reloaded_value"
+				spec2.Jobs[i].Params = p2
+			}
+		}
 		last := &spec2.Jobs[len(spec2.Jobs)-1]
 		if last.Scheme == "https" {
 			last.Scheme = "http"
@@ -343,10 +359,29 @@ func c02Phase(res *core.CaseResult, r *core.Rng, phase, text string, reload bool
 		kv[jc.JobName] = map[string]bool{}
 	}
 	for s, in := range sidecars {
+		if s == 0 && phase == "after a reload" && len(text)%3 == 0 {
+			// the write of the generated file fails once while this sidecar applies the reloaded configuration;
+			// the coordinator pushes again only if the shard does not report the new hash, then posts targets
+			out := in.Opt.OutFile
+			_ = os.Rename(out, out+".saved")
+			_ = os.Mkdir(out, 0755)
+			perr := in.PushConfig(text)
+			_ = os.Remove(out)
+			_ = os.Rename(out+".saved", out)
+			if perr == nil {
+				res.Inconcl = "the injected write failure did not surface"
+				return false
+			}
+			res.AddStat("reloads_applied_with_a_failing_file_write", 1)
+			if rt, err := in.Runtime(); err != nil || rt.ConfigHash == pd.cm.ConfigInfo().ConfigHash {
+				goto pushed
+			}
+		}
 		if err := in.PushConfig(text); err != nil {
 			res.Inconcl = "sidecar rejected configuration: " + err.Error()
 			return false
 		}
+	pushed:
 		if err := in.UpdateTargets(assign[s]); err != nil {
 			res.Inconcl = "sidecar rejected assignment: " + err.Error()
 			return false
